@@ -1,0 +1,57 @@
+//go:build verif
+
+package filter
+
+// Contracts for govc (contract-based deductive verification, see /verif/DESIGN.md).
+// This file contains comments only and is compiled only with the build tag `verif`.
+
+//@ iface RequestCondition.MatchRequest
+//@   pure
+//@ iface ResponseCondition.MatchResponse
+//@   pure
+
+//@ pred cntReq(m martian.RequestModifier) = ite(typeis(m, verify.RequestVerifier), m.gUnmetReq, 0)
+//@ pred cntRes(m martian.ResponseModifier) = ite(typeis(m, verify.ResponseVerifier), m.gUnmetRes, 0)
+//@ pred filterOK(f *Filter) = f != nil && f.treqmod != nil && f.freqmod != nil && f.tresmod != nil && f.fresmod != nil
+
+// C12: a filter runs exactly one branch, chosen by its condition on the current message; without a condition it
+// fails and runs nothing.
+//@ func (*Filter).ModifyRequest
+//@   serves C12
+//@   requires filterOK(f) && req != nil
+//@   modifies nReq, reqSeq, lastReqErr, http.Request.*, url.URL.*, martian.Session.hijacked, martian.Context.skipRoundTrip, martian.Context.skipLogging, martian.Context.apiRequest
+//@   ensures[missing-condition-is-an-error-and-runs-nothing] f.reqcond == nil ==> result != nil && nReq == old(nReq)
+//@   ensures[exactly-one-branch-by-condition] f.reqcond != nil ==> nReq == old(nReq) + 1 && result == lastReqErr &&
+//@        reqSeq[old(nReq)] == ite(old(f.reqcond.MatchRequest(req)), f.treqmod, f.freqmod)
+//@ func (*Filter).ModifyResponse
+//@   serves C12
+//@   requires filterOK(f) && res != nil
+//@   modifies nRes, resSeq, lastResErr, http.Response.*, martian.Session.hijacked, martian.Context.skipRoundTrip, martian.Context.skipLogging, martian.Context.apiRequest
+//@   ensures[missing-condition-is-an-error-and-runs-nothing] f.rescond == nil ==> result != nil && nRes == old(nRes)
+//@   ensures[exactly-one-branch-by-condition] f.rescond != nil ==> nRes == old(nRes) + 1 && result == lastResErr &&
+//@        resSeq[old(nRes)] == ite(old(f.rescond.MatchResponse(res)), f.tresmod, f.fresmod)
+
+// C13: verification walks both branches; nothing lost, nothing duplicated, nested lists flattened; reset reaches
+// every verifier on both branches.
+//@ func (*Filter).VerifyRequests
+//@   serves C13
+//@   requires filterOK(f)
+//@   ensures[reports-both-branches-flattened] errCount(result) == cntReq(f.freqmod) + cntReq(f.treqmod)
+//@   ensures[nil-iff-nothing-unmet] (result == nil) == (cntReq(f.freqmod) + cntReq(f.treqmod) == 0)
+//@ func (*Filter).VerifyResponses
+//@   serves C13
+//@   requires filterOK(f)
+//@   ensures[reports-both-branches-flattened] errCount(result) == cntRes(f.tresmod) + cntRes(f.fresmod)
+//@   ensures[nil-iff-nothing-unmet] (result == nil) == (cntRes(f.tresmod) + cntRes(f.fresmod) == 0)
+//@ func (*Filter).ResetRequestVerifications
+//@   serves C13
+//@   requires filterOK(f)
+//@   modifies verify.RequestVerifier.gUnmetReq
+//@   ensures[every-request-verifier-below-is-reset] cntReq(f.treqmod) == 0 && cntReq(f.freqmod) == 0
+//@   ensures forall o *int :: o.gUnmetReq == old(o.gUnmetReq) || o.gUnmetReq == 0
+//@ func (*Filter).ResetResponseVerifications
+//@   serves C13
+//@   requires filterOK(f)
+//@   modifies verify.ResponseVerifier.gUnmetRes
+//@   ensures[every-response-verifier-below-is-reset] cntRes(f.tresmod) == 0 && cntRes(f.fresmod) == 0
+//@   ensures forall o *int :: o.gUnmetRes == old(o.gUnmetRes) || o.gUnmetRes == 0
